@@ -114,6 +114,7 @@ def rules(ctx):
         Rule("R09.f", "integer literals are materialised at their written value (shared with C09)", 20, _reuse("c09", "r09f")),
         Rule("R07.d", "operator/type combinations the checker accepts have a code-generator arm (shared with C07)", 80, _reuse("c07", "r07d")),
         Rule("R07.h", "every cast the checker accepts is one the code generator can build (shared with C07)", 100, _reuse("c07", "r07h")),
+        Rule("R07.l", "a nested comparison gets the address of an aggregate component, the loaded value of a scalar one (shared with C07)", 10, _reuse("c07", "r07l")),
         Rule("R07.k", "array -> slice is accepted only when the element representation is kept (shared with C07)", 1, _reuse("c07", "r07k")),
         Rule("R07.i", "== / != on aggregates: every component the comparison recurses into has a code-generator arm (shared with C07)", 60, _reuse("c07", "r07i")),
         Rule("R18.a", "type ids: each kind's own discriminant and row index (core.println prints through `any` and these tables; shared with C18)", 60, _reuse("c18", "r18a")),
